@@ -39,21 +39,23 @@ def int_harness(d, hname, nbytes, sabotage=False):
     return "    #[kani::proof]\n    #[kani::unwind(%d)]\n    pub fn %s() {\n        %s\n    }\n" % (nbytes + 3, hname, "\n        ".join(b))
 
 
-FLOAT_CATALOGUE = ["1.5", "1.5 ", " 1.5", "1.5\\n", "\\t2", "NaN", "nan", "inf", "-inf", "+infinity", "-0", "1e400", "-1e400", "1e-400", "", " ", "abc", "1_0", "0x10", "\\u{2003}3", "3\\u{a0}", "٣", "+", "1e", ".5", "5."]
+FLOAT_CATALOGUE = ["1.5", "1.5 ", " 1.5", "1.5\\n", "\\t2", "NaN", "nan", "inf", "-inf", "+infinity", "-0", "1e400", "-1e400", "1e-400", "", " ", "abc", "1_0", "0x10", "\\u{2003}3", "3\\u{a0}", "٣", "+", "1e", ".5", "5.",
+                   # just above an f32 rounding midpoint: parsing it as f64 and narrowing rounds twice (1.0 instead of 1.0000001)
+                   "1.00000005960464477539062500000001", "16777217.0000000000000001"]
 
 
 def float_harness(d, hname, sabotage=False):
     ty = d.ty
     n = len(FLOAT_CATALOGUE)
     b = [d.setup(),
-         "unsafe { P_OK = kani::any(); P_VAL = kani::any(); P_CALLS = 0; }",
+         "unsafe { P_OK = kani::any(); P_VAL = kani::any(); P_CALLS = 0; OTHER_CALLS = 0; }",
          "let cat: [&'static str; %d] = [%s];" % (n, ", ".join('"%s"' % s for s in FLOAT_CATALOGUE)),
          "let i: usize = kani::any(); kani::assume(i < %d);" % n,
          "let text: &str = cat[i];",
          "let r = <N as FromStr>::from_str(text);",
          # under verification the inner parser is a nondeterministic stub that records the text it was handed;
          # natively (replay) it is the real core parser
-         "let parsed: Result<%s, ()> = if is_symbolic() {\n            assert!(unsafe { P_CALLS } == 1 && unsafe { L_PTR } == text.as_ptr() as usize && unsafe { L_LEN } == text.len(), \"the inner parser was not handed exactly the input text (once)\");\n            if unsafe { P_OK } { Ok(unsafe { P_VAL }) } else { Err(()) }\n        } else { text.parse::<%s>().map_err(|_| ()) };" % (ty, ty)]
+         "let parsed: Result<%s, ()> = if is_symbolic() {\n            assert!(unsafe { OTHER_CALLS } == 0, \"the text was parsed as a different float type than the inner type\");\n            assert!(unsafe { P_CALLS } == 1 && unsafe { L_PTR } == text.as_ptr() as usize && unsafe { L_LEN } == text.len(), \"the inner parser was not handed exactly the input text (once)\");\n            if unsafe { P_OK } { Ok(unsafe { P_VAL }) } else { Err(()) }\n        } else { text.parse::<%s>().map_err(|_| ()) };" % (ty, ty)]
     if not sabotage:
         b.append("kani::cover!(r.is_ok()); kani::cover!(matches!(r, Err(NParseError::Parse(_))));")
         if d.has_validation():
@@ -61,12 +63,17 @@ def float_harness(d, hname, sabotage=False):
         if "finite" in d.validators:
             b.append("if let Ok(v) = &r { let g: %s = **v; assert!(g.is_finite(), \"from_str yielded a non-finite value for a `finite` type\"); }" % ty)
     b.append(result_match(d, "parsed", "r", sabotage))
-    return ("    #[kani::proof]\n    #[kani::unwind(8)]\n    #[kani::stub(<%s as core::str::FromStr>::from_str, stub_parse)]\n    #[kani::stub(crate::support::is_symbolic, crate::support::is_symbolic_true)]\n    pub fn %s() {\n        %s\n    }\n"
-            % (ty, hname, "\n        ".join(b)))
+    other = "f64" if ty == "f32" else "f32"
+    return ("    #[kani::proof]\n    #[kani::unwind(8)]\n    #[kani::stub(<%s as core::str::FromStr>::from_str, stub_parse)]\n    #[kani::stub(<%s as core::str::FromStr>::from_str, stub_parse_other)]\n    #[kani::stub(crate::support::is_symbolic, crate::support::is_symbolic_true)]\n    pub fn %s() {\n        %s\n    }\n"
+            % (ty, other, hname, "\n        ".join(b)))
 
 
 def float_prelude(ty):
-    return ("static mut P_OK: bool = false; static mut P_VAL: %s = 0.0; static mut L_PTR: usize = 0; static mut L_LEN: usize = 0; static mut P_CALLS: u32 = 0;\n"
+    other = "f64" if ty == "f32" else "f32"
+    return ("static mut OTHER_CALLS: u32 = 0;\n"
+            "    /// the OTHER float type's parser must not be involved at all (e.g. parsing an f32 through f64 rounds twice)\n"
+            "    fn stub_parse_other(_s: &str) -> Result<%s, core::num::ParseFloatError> { unsafe { OTHER_CALLS += 1; } Err(unsafe { core::mem::transmute::<u8, core::num::ParseFloatError>(0u8) }) }\n    " % other +
+            "static mut P_OK: bool = false; static mut P_VAL: %s = 0.0; static mut L_PTR: usize = 0; static mut L_LEN: usize = 0; static mut P_CALLS: u32 = 0;\n"
             "    fn stub_parse(s: &str) -> Result<%s, core::num::ParseFloatError> {\n"
             "        unsafe { L_PTR = s.as_ptr() as usize; L_LEN = s.len(); P_CALLS += 1; }\n"
             "        if unsafe { P_OK } { Ok(unsafe { P_VAL }) } else { Err(unsafe { core::mem::transmute::<u8, core::num::ParseFloatError>(0u8) }) }\n    }" % (ty, ty))
